@@ -181,8 +181,8 @@ func vfH_C04_damaged(tier int) {
 	}
 	var out []rune
 	dmg := vfChoice(4)
-	if tier == 0 && dmg >= 2 && kind%4 != 0 {
-		return // quick tier: arbitrary characters are injected into every fourth statement family only
+	if tier == 0 && dmg >= 2 && kind%6 != 0 {
+		return // quick tier: arbitrary characters are injected into every sixth statement family only
 	}
 	switch dmg {
 	case 0: // truncated
